@@ -203,8 +203,8 @@ def cli_cases(ctx, work, per_scen):
     included (the sharded accessor flushes in an atexit handler)."""
     from concurrent.futures import ThreadPoolExecutor
     from .. import cli_fault as cf
-    names = ["v2p.sharded", "compute.file", "convert.file_to_sharded", "v2p.file.gz", "v2p.geninfo",
-             "gsi", "mesh", "slices.sharded"] if ctx.quick \
+    names = ["v2p.sharded", "compute.file", "compute.sharded", "convert.file_to_sharded", "v2p.file.gz",
+             "v2p.geninfo", "gsi", "mesh", "slices.sharded"] if ctx.quick \
         else list(cf.SCENARIOS)
     out = []
     jobs = []
